@@ -351,6 +351,9 @@ func TestC02Exhaustive(t *testing.T) {
 func c02Gen() *rapid.Generator[c02Case] {
 	return rapid.Custom(func(t *rapid.T) c02Case {
 		names := genNameMix(poolTiny, poolTiny, poolSyntax, poolUnicode, nil)
+		if rapid.IntRange(0, 5).Draw(t, "slashNames") == 0 {
+			names = sampled(poolSlashTiny)
+		}
 		var f model.Forest
 		if rapid.IntRange(0, 39).Draw(t, "wide") == 0 {
 			f = genWideForest(sampled(poolTiny)).Draw(t, "wideForest")
